@@ -93,7 +93,7 @@ def generate(rng, prop, tier):
         op['cached'] = rng.chance(0.5)
     elif kind == 'popkeys':
         op['ks'] = [p[0] for p in pre[:rng.randint(0, 2)]]
-    return {'engine': 'crashsim', 'prop': prop, 'backend': B.config(label, 'c0'),
+    return {'engine': 'crashsim', 'prop': prop, 'backend': B.config(label, B.odd_name(rng, label, 'c0')),
             'ops': [{'op': 'pre', 'k': k, 'v': v} for k, v in pre], 'final': op,
             'order': rng.choice(['sorted', 'permute']), 'kseed': rng.below(1 << 30)}
 
